@@ -62,6 +62,15 @@ func c05Vectors() []c05Vector {
 		{name: "preexisting-dir-symlink-deep-existing", pre: tm.Tree{tm.L("out", "../canary")}, names: one("out/dir/x")},
 		{name: "symlink-in-same-list-implied-parents", names: func(string) [][]byte { return [][]byte{[]byte("s"), []byte("s/newa/newb")} }, setup: 1},
 		{name: "symlink-in-same-list-deep-existing", names: func(string) [][]byte { return [][]byte{[]byte("s"), []byte("s/dir/x")} }, setup: 1},
+		// names that only become dangerous after some normalisation step: a NUL byte after a symlink's name
+		// (cut at the NUL, "out/" is a trailing-slash name that the kernel resolves through the link), "/." and "//" tails
+		{name: "preexisting-dir-symlink-nul", pre: tm.Tree{tm.L("out", "../canary")}, names: one("out/\x00")},
+		{name: "preexisting-dir-symlink-nul-tail", pre: tm.Tree{tm.L("out", "../canary")}, names: one("out/\x00tail")},
+		{name: "preexisting-dir-symlink-nul-deeper", pre: tm.Tree{tm.L("out", "../canary")}, names: one("out/dir/\x00")},
+		{name: "preexisting-dir-symlink-dot", pre: tm.Tree{tm.L("out", "../canary")}, names: one("out/.")},
+		{name: "preexisting-dir-symlink-slashes", pre: tm.Tree{tm.L("out", "../canary")}, names: one("out//")},
+		{name: "symlink-in-same-list-nul", names: func(string) [][]byte { return [][]byte{[]byte("s"), []byte("s/\x00")} }, setup: 1},
+		{name: "nul-first", names: one("\x00/../canary/x")},
 	}
 }
 
